@@ -20,10 +20,10 @@ type scOp struct {
 }
 
 type scGen struct {
-	r     *rand.Rand
-	names []string
-	nval  int
-	ntag  int
+	r      *rand.Rand
+	names  []string
+	nval   int
+	ntag   int
 	budget int
 }
 
